@@ -86,7 +86,7 @@ def run(ctx):
             nontriv += 1
         pl = K.part_lines(fam)
         replay = {"kind": "schedule-with-frozen-participant", "family": fam["name"], "setup": fam["setup"], "participants": pl,
-                  "frozen_participant": victim, "prefix": plan, "schedule": K.schedule_text(cr)}
+                  "frozen_participant": victim, "prefix": plan, "schedule": K.schedule_text(cr), "raw_schedule": K.schedule_raw(cr)}
         for i, r in enumerate(cr.runs):
             for e in (x for st in r.steps for x in st["events"]):
                 if e["call"] in LOCKS:
